@@ -134,6 +134,10 @@ class Tr:
                 return t[5:]
         if e[0] == "call" and e[1][0] == "path" and ("call", "::".join(e[1][1])) in self.tb.effects:
             return self.tb.effects[("call", "::".join(e[1][1]))].get("ret")
+        if e[0] == "call" and e[1][0] == "path" and "::".join(e[1][1]) in getattr(self.tb, "rettags", {}):
+            return self.tb.rettags["::".join(e[1][1])]
+        if e[0] == "call" and e[1][0] == "path" and len(e[1][1]) == 2 and ("::".join(e[1][1])) in self.tb.ctors:
+            return e[1][1][0]
         if e[0] == "match" and e[2]:
             return self.tag_of(e[2][0][2])
         if e[0] == "block" and e[2] is not None:
